@@ -78,6 +78,23 @@ def describe(o):
             "then token request by that client" % (f[7], f[1], un(f[2]), un(f[3]), un(f[4]), un(f[5]), f[6], un(f[8])))
 
 
+SIGNER_ALG = {"rsa": "RS256", "p256": "ES256", "p384": "ES384", "p521": "ES512", "ed25519": "EdDSA"}
+
+
+def gen_jw(ctx):
+    """deployments by kind of signing key (loaded by the real loader), with / without the Ed25519 ssh-CA signer and a
+    trusted peer key; the property's "verifies under the published JWKS" is about every one of them"""
+    ops = []
+    for kind in ["p521", "rsa", "p256", "p384"]:
+        for ed, peer in [(0, 0), (1, 0), (0, 1), (1, 1)]:
+            if ctx.quick() and kind != "p521" and (ed, peer) in ((1, 0), (0, 1)):
+                continue
+            ops.append("jw %s %d %d %s" % (kind, ed, peer, "sec1" if (ed + peer) % 2 == 0 else "pkcs8"))
+    if not ctx.quick():
+        ops += ["jw rsa3072 1 1 pkcs8", "jw p521 0 0 pkcs8", "jw p384 1 0 sec1"]
+    return ops
+
+
 def un(h):
     return None if h == "-" else c.unhexs(h)
 
@@ -138,7 +155,7 @@ def drop(wire, keys):
 def run(ctx):
     facts = c.regen(ctx)
     c.prove(ctx)
-    ops = gen_az(ctx) + gen_ops(ctx)
+    ops = gen_jw(ctx) + gen_az(ctx) + gen_ops(ctx)
     if ctx.replay:
         rp = json.load(open(ctx.replay))
         ops = [v["replay"]["op"] for v in rp.get("violations", []) if "op" in v.get("replay", {})] or ops[:100]
@@ -149,9 +166,37 @@ def run(ctx):
     mops, jops, meta, ui_ops, ui_expect = [], [], [], [], []
     hist = {}
     az_ops, az_expect, rel_ops, rel_meta, late = [], [], [], [], []
+    jw_model_ops, jw_expect, jw_judge_ops, jw_meta, jw_hist = [], [], [], [], {}
     az_hist = {}
     for o, line in zip(ops, impl):
         truth = None
+        dep_keys, dep_alg = "1:rsa", "RS256"
+        if o.startswith("jw "):
+            f = o.split()
+            jhead, _, tokpart = line.partition(" || ")
+            jh = jhead.split()
+            jkv = dict(x.split("=", 1) for x in jh[2:] if "=" in x)
+            if not line.startswith("jw ") or len(jh) < 2:
+                ctx.broken.append("harness answered %r for %r" % (line[:200], o))
+                continue
+            jw_hist[jh[1]] = jw_hist.get(jh[1], 0) + 1
+            what = "deployment signing with a %s key%s%s" % (f[1], ", Ed25519 ssh-CA signer configured" if f[2] == "1" else "",
+                                                             ", a peer keymaster key trusted" if f[3] == "1" else "")
+            if jh[1] != "released":
+                # the signer loader accepted the key (or not) — a deployment that cannot complete the flow at all
+                # releases nothing; only report when the loader accepted the key and the JWKS itself is broken
+                if jh[1].startswith("jwks-"):
+                    c.add_violation(ctx, "jwks-unavailable:" + f[1], "%s: the JWKS handler answered %s" % (what, jh[1]), {"op": o, "impl": line})
+                else:
+                    ctx.notes.append("%s: %s" % (o, jhead[:200]))
+                continue
+            jw_model_ops.append("jw " + jkv["trusted"])
+            jw_expect.append((o, jkv["published"]))
+            jw_judge_ops.append("jwv %s %s %s" % (jkv["published"], jkv["alg"], jkv["kid"] if jkv["kid"] != "0" else "-"))
+            jw_meta.append((o, line, what, jkv))
+            dep_keys, dep_alg = jkv["trusted"], SIGNER_ALG.get(jkv["signer"].split(":")[1], "other")
+            line = tokpart
+            truth = {"client": "confidentialOne", "nonce": NONCE, "scope": "openid", "auds": [], "tauth": None}
         if o.startswith("az "):
             f = o.split()
             if not line.startswith("az "):
@@ -194,9 +239,9 @@ def run(ctx):
         if wire is None:
             ctx.broken.append("code payload is not an object for %r" % o)
             continue
-        mop = "tok %s %s 1:rsa %s %s %s %s %s %s %s %s %s %s RS256 %s RS256 %s" % (
-            kv["now"], hx(ISSUER), CLIENTS_ARG, hx("POST"), hx("authorization_code"), kv["redirect"], kv["verifier"],
-            kv["basic"], kv["formid"], kv["formsecret"], kv["s256"], kv["prot"], kv["by"], wire)
+        mop = "tok %s %s %s %s %s %s %s %s %s %s %s %s %s %s %s %s %s" % (
+            kv["now"], hx(ISSUER), dep_keys, CLIENTS_ARG, hx("POST"), hx("authorization_code"), kv["redirect"], kv["verifier"],
+            kv["basic"], kv["formid"], kv["formsecret"], kv["s256"], kv["prot"], dep_alg, kv["by"], dep_alg, wire)
         if cls == "released":
             idw = drop(flat_wire(kv["idt"])[0], ("iat",))
             acw = drop(flat_wire(kv["acc"])[0], ("iat",))
@@ -207,7 +252,8 @@ def run(ctx):
         jops.append(mop + (" acc" if cls == "released" else " rej"))
         meta.append((o, idec, kv, line, cls))
         f = o.split()
-        hk = "%s/%s:%s" % ("confidential" if f[1].startswith("conf") else "public", f[9] if truth is None else "az", cls)
+        hk = "%s/%s:%s" % ("confidential" if f[1].startswith("conf") or f[0] == "jw" else "public",
+                           f[9] if truth is None else f[0], cls)
         hist[hk] = hist.get(hk, 0) + 1
         if "LEAK" in rest:
             c.add_violation(ctx, "token-in-refusal", "a refused token request carried a token in its body", {"op": o, "impl": line})
@@ -220,6 +266,8 @@ def run(ctx):
                              "publicOne": {"same": "publicOne", "other": "publicTwo", "otherType": "confidentialOne"}}[f[1]].get(f[2], "?")
                 truth = {"client": presenter, "nonce": NONCE, "scope": "openid", "auds": [], "tauth": code.get("iat", 0)}
             presenter = truth["client"]
+            if truth["tauth"] is None:
+                truth["tauth"] = code.get("iat", 0)
             idt = json.loads(bytes.fromhex(kv["idt"]))
             acc = json.loads(bytes.fromhex(kv["acc"]))
             # the property's predicates (idTokenOK / accessTokenOK of the theorems), evaluated by the Lean judge
@@ -256,7 +304,7 @@ def run(ctx):
             if bad:
                 late.append(("released-token-claims", "released tokens are wrong for request %r: %s" % (o, "; ".join(bad)), {"op": o, "impl": line}))
             # the model's userinfo on the released access token
-            ui_ops.append("ui %s %s 1:rsa RS256 1 RS256 %s" % (kv["now"], hx(ISSUER), flat_wire(kv["acc"])[0]))
+            ui_ops.append("ui %s %s %s %s %s %s %s" % (kv["now"], hx(ISSUER), dep_keys, dep_alg, kv["by"], dep_alg, flat_wire(kv["acc"])[0]))
             ui_expect.append("ok " + kv["ui"].split(":", 1)[1] if kv["ui"].startswith("ok:") else "rej")
     model = c.run_driver(ctx, "model", mops)
 
@@ -281,6 +329,29 @@ def run(ctx):
                                 "released tokens violate the property: %s; %s -> id_token %s access_token %s" % (
                                     v, describe(o), json.dumps(idt, sort_keys=True), json.dumps(acc, sort_keys=True)),
                                 {"op": o, "impl": line, "judge": v, "id_token": idt, "access_token": acc})
+    if jw_model_ops:
+        jm = c.run_driver(ctx, "model", jw_model_ops)
+        # compared on the keys that can sign tokens (RSA / ECDSA main signers): whether keys that never sign an ID
+        # token (the Ed25519 ssh-CA key) are listed too is not something the property fixes
+        def signing(keys):
+            return ",".join(sorted(k for k in keys.split(",") if k != "-" and k.split(":")[1] in ("rsa", "p256", "p384", "p521"))) or "-"
+        c.diff_streams(ctx, "idpOpenIDCJWKSHandler (published token-signing keys) vs KM.Oidc.published", [a[0] for a in jw_expect],
+                       [signing(a[1]) for a in jw_expect], [signing(l) for l in jm])
+        for (o, line, what, jkv) in jw_meta:
+            extra = set(jkv["published"].split(",")) - set(jkv["trusted"].split(",")) - {"-"}
+            if extra:
+                c.add_violation(ctx, "jwks:untrusted-key-published", "%s: the JWKS lists keys the deployment does not trust: %s" % (
+                    what, sorted(extra)), {"op": o, "impl": line})
+        jv = c.run_driver(ctx, "judge", jw_judge_ops)
+        for (o, line, what, jkv), v in zip(jw_meta, jv):
+            real = jkv.get("idv") == "1" and jkv.get("accv") == "1"
+            if v != "ok" or not real:
+                c.add_violation(ctx, "jwks:" + (v.split(" ", 1)[1] if v != "ok" else "released-token-does-not-verify"),
+                                "%s: the released ID token (alg %s, signed by key %s) %s under the JWKS the handler publishes "
+                                "(trusted keys %s, published %s; relying-party verification of id_token=%s access_token=%s)" % (
+                                    what, jkv["alg"], jkv["signer"], "does not verify" if not real else "is not covered by the model's predicate",
+                                    jkv["trusted"], jkv["published"], jkv.get("idv"), jkv.get("accv")),
+                                {"op": o, "impl": line, "judge": v})
     for k, what, rp in late:      # the script's own ground-truth comparison, after the Lean judge's verdicts
         c.add_violation(ctx, k, what, rp)
     verdicts = c.run_driver(ctx, "judge", jops)
@@ -299,6 +370,8 @@ def run(ctx):
         "outcome_histogram": dict(sorted(hist.items())),
         "authorization_requests": len(az_ops), "authorization_histogram": dict(sorted(az_hist.items())),
         "released_tokens_judged": len(rel_ops),
+        "signer_deployments": len(jw_meta), "signer_histogram": dict(sorted(jw_hist.items())),
+        "signer_kinds": sorted(set(m[3]["signer"].split(":")[1] for m in jw_meta)),
         "released_with_audience": sum(1 for m in rel_meta if m[3].get("aud")),
         "userinfo_checked": len(ui_ops),
         "pkce_switch": facts.get("c12", {}).get("pkce_switch"),
